@@ -211,6 +211,16 @@ def run_check(prop, tier, seed):
         os.environ['PYVC_CROSSCHECK'] = '1'     # every `unsat` is re-submitted to the other solvers
     results = discharge(jobs, timeout_s=timeout)
     cross = {'unsat_rechecked': 0, 'confirmed_by_second_solver': 0, 'disagreements': 0}
+    # a verdict must not flip because the machine is busy: obligations that ran out of time get one more
+    # attempt, alone, with four times the budget
+    retry = [i for i, r in enumerate(results) if r['result'] == 'unknown' and 'timeout' in (r.get('reason') or '')]
+    if retry:
+        again = discharge([jobs[i] for i in retry], timeout_s=timeout * 4, procs=min(4, len(retry)))
+        for i, r2 in zip(retry, again):
+            if r2['result'] != 'unknown':
+                r2['idx'] = results[i]['idx']
+                r2['time'] += results[i]['time']
+                results[i] = r2
     solver_wall = time.time() - t_solve
     solver_cpu = 0.0
     for it, r in zip(job_items, results):
